@@ -444,7 +444,8 @@ pub fn parse_choice_text(input: &str) -> Result<ParsedChoiceText, CompilerError>
         let end = trimmed[close + 1..].trim_start();
         // `text -> target` on the choice line: the text keeps its trailing space
         // and is not followed by a line break, so the target's content joins it.
-        let had_space_before_inline_divert = split_inline_divert(end)
+        // (The blank may be all there is between `]` and the arrow.)
+        let had_space_before_inline_divert = split_inline_divert(&trimmed[close + 1..])
             .and_then(|(text, _)| text.chars().last())
             .is_some_and(char::is_whitespace);
         let (end, inline_target) = split_inline_choice_divert(end)?;
